@@ -22,7 +22,12 @@
        continues from the landing index" (`finishes`-form, as `clo_ok` of Proof/A64SimClo.v has it).  For the
        landing index to exist at all a real instruction must follow: hypothesis `ends_nz c5` of this case
        (x86-64 needs none; `gclauses_ends_nz` + `acs_ends_nz` discharge it for statements with non-empty clause
-       lists - the captureless fragment `stmt_cf` of Proof/SimFrag.v asks for the same). *)
+       lists - the captureless fragment `stmt_cf` of Proof/SimFrag.v asks for the same).
+   WITHOUT a hypothesis on the program: `fwd_ok im` (every placed instruction is followed, after zero-size
+   pseudo-instructions only, by a real one) is the AArch64 counterpart of `back_ok`; it holds for the image of any
+   code that ends with a real instruction (`mk_image_fwd`), in particular of the compiled routine, which ends with
+   the RET of `cleanup` (`routine_image_fwd`); `fwd_land` gives the landing index of the address of any placed
+   index, and `dispatch_layout_fwd` is `dispatch_layout` from `img_ok` and `fwd_ok` alone. *)
 From Coq Require Import List ZArith NArith String Bool Lia FMapPositive.
 From SCC Require Import Base.Sexp Lang.AxSyn Sem.AxSem Model.ParMoves Model.Backend Model.A64 Sem.A64Sem
      Model.Linearize Model.LinCheck Generated.Constants Proof.LinBasics
@@ -395,3 +400,126 @@ Proof.
     split; [discriminate|]. auto.
 Qed.
 End Layout.
+
+(* ---------- the forward property of the image: the AArch64 counterpart of x86-64's `back_ok` ---------- *)
+(* every placed instruction is followed, after zero-size pseudo-instructions only (labels, directives; all of them
+   placed), by an instruction of non-zero size.  With it an indirect branch to the address of ANY placed index has
+   a landing index (`fwd_land`), and `dispatch_layout_fwd` needs no hypothesis on the clause code. *)
+Definition fwd_ok (im : image) : Prop :=
+  forall pc c, PM.find pc (code im) = Some c ->
+    exists zs c', code_at im pc (zs ++ [c']) /\ size_of zs = 0 /\ 0 < isize c'.
+
+(* the same read index-wise (the formulation without lists) *)
+Lemma fwd_ok_index im : fwd_ok im ->
+  forall pc c, PM.find pc (code im) = Some c ->
+    exists j c', PM.find (padd pc j) (code im) = Some c' /\ 0 < isize c' /\
+                 (forall i ci, (i < j)%nat -> PM.find (padd pc i) (code im) = Some ci -> isize ci = 0).
+Proof.
+  intros FWD pc c Hc. destruct (FWD pc c Hc) as (zs & c' & CA & Z0 & SZ).
+  exists (List.length zs), c'. split; [apply CA; apply nth_error_mid|]. split; [exact SZ|].
+  intros i ci Hi Hci. destruct (nth_error zs i) as [z|] eqn:Ez; [|apply nth_error_None in Ez; lia].
+  assert (E : PM.find (padd pc i) (code im) = Some z) by (apply CA; rewrite nth_error_app1 by lia; exact Ez).
+  assert (ci = z) by congruence. subst ci.
+  clear - Ez Z0. revert i Ez. induction zs as [|z0 r IH]; intros i Ez; [destruct i; discriminate|].
+  cbn [size_of] in Z0. pose proof (isize_nonneg z0). pose proof (size_of_nonneg r).
+  destruct i as [|i]; cbn [nth_error] in Ez; [inversion Ez; subst; lia|]. apply (IH ltac:(lia) i Ez).
+Qed.
+
+(* in a list with a real instruction at or after position n: the zero-size run from n and the real instruction after it *)
+Lemma next_nz (cs : list acode) : forall d n c,
+  nth_error cs (n + d) = Some c -> 0 < isize c ->
+  exists zs c', size_of zs = 0 /\ 0 < isize c' /\
+    forall i ci, nth_error (zs ++ [c']) i = Some ci -> nth_error cs (n + i) = Some ci.
+Proof.
+  induction d as [|d IH]; intros n c Hn SZ.
+  - exists [], c. split; [reflexivity|]. split; [exact SZ|]. intros i ci Hi. cbn [app] in Hi.
+    destruct i as [|i]; cbn [nth_error] in Hi; [|destruct i; discriminate]. inversion Hi; subst. exact Hn.
+  - destruct (nth_error cs n) as [c0|] eqn:E0.
+    2:{ apply nth_error_None in E0. assert (L : (n + S d < List.length cs)%nat) by (apply nth_error_Some; congruence). lia. }
+    destruct (Z_lt_le_dec 0 (isize c0)) as [P|NP].
+    + exists [], c0. split; [reflexivity|]. split; [exact P|]. intros i ci Hi. cbn [app] in Hi.
+      destruct i as [|i]; cbn [nth_error] in Hi; [|destruct i; discriminate]. inversion Hi; subst. rewrite Nat.add_0_r. exact E0.
+    + replace (n + S d)%nat with (S n + d)%nat in Hn by lia.
+      destruct (IH (S n) c Hn SZ) as (zs & c' & Z0 & SZ' & NTH).
+      exists (c0 :: zs), c'. pose proof (isize_nonneg c0). split; [cbn [size_of]; lia|]. split; [exact SZ'|].
+      intros i ci Hi. destruct i as [|i]; cbn [app nth_error] in Hi.
+      * inversion Hi; subst. rewrite Nat.add_0_r. exact E0.
+      * replace (n + S i)%nat with (S n + i)%nat by lia. apply NTH. exact Hi.
+Qed.
+
+(* the image built by mk_image from code that ends with a real instruction *)
+Theorem mk_image_fwd cs : ends_nz cs -> fwd_ok (mk_image cs).
+Proof.
+  intros (pre & cl & E & SZ) pc c Hc.
+  apply build_code_inv in Hc as [Hc|(n & -> & Hn)]; [cbn in Hc; rewrite PM.gempty in Hc; discriminate|].
+  assert (Ln : (n < List.length cs)%nat) by (apply nth_error_Some; congruence).
+  assert (LL : List.length cs = S (List.length pre)) by (rewrite E, app_length; cbn [List.length]; lia).
+  assert (LAST : nth_error cs (n + (List.length pre - n)) = Some cl).
+  { replace (n + (List.length pre - n))%nat with (List.length pre) by lia. rewrite E. apply nth_error_mid. }
+  destruct (next_nz cs _ n cl LAST SZ) as (zs & c' & Z0 & SZ' & NTH).
+  exists zs, c'. split; [|auto]. intros i ci Hi. rewrite <- padd_add.
+  apply (build_code_nth cs 1%positive CODE_BASE _ (n + i) ci). apply NTH. exact Hi.
+Qed.
+
+(* the compiled routine ends with the RET of `cleanup` *)
+Lemma routine_ends_nz is n cs : into_aarch64_routine is n = Ok cs -> ends_nz cs.
+Proof.
+  unfold into_aarch64_routine. destruct (setup n) as [su|]; cbn [rbind]; [|discriminate]. intros H. inversion H; subst cs.
+  exists (preamble ++ su ++ is ++ firstn 8 cleanup), RET. split; [|cbn; lia].
+  rewrite <- !app_assoc. reflexivity.
+Qed.
+Corollary routine_image_fwd is n cs : into_aarch64_routine is n = Ok cs -> fwd_ok (mk_image cs).
+Proof. intros H. apply mk_image_fwd. exact (routine_ends_nz is n cs H). Qed.
+
+Section LayoutFwd.
+Variable im : image.
+Hypothesis IMG : img_ok im.
+Hypothesis FWD : fwd_ok im.
+
+(* an indirect branch to the address of a placed index lands on the next real instruction, and every run from the
+   index continues from the landing index *)
+Lemma fwd_land pc c a :
+  PM.find pc (code im) = Some c -> PM.find pc (addr_of im) = Some a ->
+  exists i, PM.find (key a) (index_at im) = Some i /\ forall s o, finishes im pc s o -> finishes im i s o.
+Proof.
+  intros Hc Ha. destruct (FWD pc c Hc) as (zs & c' & CA & Z0 & SZ).
+  exists (padd pc (List.length zs)). split.
+  - apply (land im IMG (zs ++ [c']) pc a (List.length zs) c' CA Ha); [|apply nth_error_mid|exact SZ].
+    rewrite firstn_app, firstn_all, Nat.sub_diag. cbn [firstn]. rewrite app_nil_r. exact Z0.
+  - intros s o FIN. apply code_at_app in CA as [CZ _]. exact (finishes_skip im zs pc s o CZ Z0 FIN).
+Qed.
+
+(* dispatch_layout without a hypothesis on the clause code *)
+Lemma dispatch_layout_fwd types ld bc pcl fresh cls c5 lc3 lc5 a :
+  code_at im pcl (([LAB fresh] ++ table_or_nil cls fresh) ++ c5) ->
+  labels_at_nh im pcl (([LAB fresh] ++ table_or_nil cls fresh) ++ c5) ->
+  hash_name fresh = false ->
+  gclauses types ld bc fresh cls lc3 = Ok (c5, lc5) ->
+  PM.find pcl (addr_of im) = Some a ->
+  forall k c, nth_error cls k = Some c ->
+    exists i pcc lcl cl lcb cb lcb',
+      PM.find (key (a + (if Nat.leb (List.length cls) 1 then 0 else jump_length (N.of_nat k)))) (index_at im) = Some i /\
+      (exists pca, PM.find pca (addr_of im) = Some (a + (if Nat.leb (List.length cls) 1 then 0 else jump_length (N.of_nat k)))) /\
+      (forall s o, finishes im pcc s o -> finishes im i s o) /\
+      (Nat.leb (List.length cls) 1 = true -> forall s o, finishes im pcc s o -> finishes im pcl s o) /\
+      ld (cl_ctx c) lcl = Ok (cl, lcb) /\ acs types (cl_body c) (bc (cl_ctx c)) lcb = Ok (cb, lcb') /\
+      code_at im pcc (cl ++ cb) /\ labels_at_nh im pcc (cl ++ cb).
+Proof.
+  intros CA LA NH CC AL k c Hk.
+  destruct (dispatch_layout_exec im IMG types ld bc pcl fresh cls c5 lc3 lc5 a CA LA NH CC AL k c Hk)
+    as (pcc & lcl & cl & lcb & cb & lcb' & LD & BD & CB & LB & ONE & TAB).
+  assert (C0 : PM.find pcl (code im) = Some (LAB fresh)).
+  { rewrite <- app_assoc in CA. cbn [app] in CA. apply code_at_cons in CA as [X _]. exact X. }
+  destruct (Nat.leb (List.length cls) 1) eqn:LE.
+  - destruct (ONE eq_refl) as (DOWN & _). destruct (fwd_land pcl _ a C0 AL) as (i & IX & ARR).
+    exists i, pcc, lcl, cl, lcb, cb, lcb'. rewrite Z.add_0_r.
+    split; [exact IX|]. split; [exists pcl; exact AL|].
+    split; [intros s o FIN; apply ARR; exact (exec_to_finishes im _ _ _ _ o (DOWN s) FIN)|].
+    split; [intros _ s o FIN; exact (exec_to_finishes im _ _ _ _ o (DOWN s) FIN)|]. auto.
+  - destruct (TAB eq_refl) as (i & IX & AD & ARR).
+    exists i, pcc, lcl, cl, lcb, cb, lcb'.
+    split; [exact IX|]. split; [exists i; exact AD|].
+    split; [intros s o FIN; exact (exec_to_finishes im _ _ _ _ o (ARR s) FIN)|].
+    split; [discriminate|]. auto.
+Qed.
+End LayoutFwd.
